@@ -193,6 +193,8 @@ func GenWorld(r *core.Rand, maxThings int, small bool) *World {
 		}
 		if len(owners) > 0 && r.P(0.7) {
 			v["owner"] = core.Pick(r, owners)
+		} else if r.P(0.3) {
+			v["owner"] = "" // a reference that holds the empty string: names nobody, is not null itself
 		} else {
 			v["owner"] = nil
 		}
